@@ -60,14 +60,16 @@ def _impl(vd, region, coords):
 BADZ = 10 ** 12
 
 
-def _toZ(x, s):
+def _toZ(x, s, tol=False):
     y = x * s
+    if tol and abs(y - round(y)) < 1e-6:
+        return int(round(y))     # decimal (non-dyadic) inputs: the float result is the nearest double of the exact decimal one
     if y != int(y):
         return BADZ
     return int(y)
 
 
-def _case(vd, s, region, coords, kind, as_int=False):
+def _case(vd, s, region, coords, kind, as_int=False, tol=False):
     """region/coords are given in scaled integer units (1/s degree)."""
     reg = [v / s for v in region]
     if as_int and all(v % s == 0 for v in region):
@@ -80,8 +82,8 @@ def _case(vd, s, region, coords, kind, as_int=False):
     ccoords = "None" if coords is None else "(Some (%s, %s))" % (zl(coords[0]), zl(coords[1]))
     if obs[0] == "ok":
         oc = "None" if obs[1] is None else "(Some (%s, %s))" % (
-            zl([_toZ(v, s) for v in obs[1][0]]), zl([_toZ(v, s) for v in obs[1][1]]))
-        r = [_toZ(v, s) for v in obs[2]]
+            zl([_toZ(v, s, tol) for v in obs[1][0]]), zl([_toZ(v, s, tol) for v in obs[1][1]]))
+        r = [_toZ(v, s, tol) for v in obs[2]]
         cobs = "(Some (%s, (%s, %s, %s, %s)))" % (oc, cZ(r[0]), cZ(r[1]), cZ(r[2]), cZ(r[3]))
     elif obs[0] == "ValueError":
         cobs = "None"
@@ -144,6 +146,22 @@ def generate(tier, seed):
         lons = [l for l in lons if -h <= l <= 2 * h] or [0]
         lats = [rnd.randint(-90 * s, 90 * s) for _ in lons]
         cases.append(_case(vd, s, (w, e, sn[0], sn[1]), (lons, lats) if i % 3 else None, "random-dyadic"))
+    # 2b. full-globe regions written with DECIMAL (non-dyadic) bounds, e.g. (-36.91, 323.09): E - W is a full circle, so
+    #     the result must be 0..360 and every longitude its value modulo 360.  The model works on the exact decimals
+    #     (scale 100 or 1000); observed doubles are rounded to the nearest 1/s (error < 1e-6/s or the case fails).
+    for i in range(24 if tier == "quick" else 300):
+        s = [100, 1000][i % 2]
+        h = 180 * s
+        w = rnd.randint(-h, 0)
+        if w % (s // 4 if s % 4 == 0 else s) == 0:
+            w += 7                      # keep off the dyadic lattice
+        e = w + 2 * h
+        sn = sorted([rnd.randint(-90, 90) * s, rnd.randint(-90, 90) * s])
+        nl = rnd.randint(1, 6)
+        lons = [rnd.choice([rnd.randint(-h, 2 * h), w, e, w + h, rnd.randint(1, 359) * s + 7]) for _ in range(nl)]
+        lons = [l for l in lons if -h <= l <= 2 * h and l % (2 * h) != 0] or [7]
+        lats = [rnd.randint(-90, 90) * s for _ in lons]
+        cases.append(_case(vd, s, (w, e, sn[0], sn[1]), (lons, lats) if i % 4 else None, "globe-decimal", tol=True))
     # 3. invalid inputs (one fault each)
     s = 8
     h = 180 * s
